@@ -382,7 +382,8 @@ class I2cM(Mon):
         legal = onehot & (~issue | p_idle) & (dut.cg.load <= maxload) & (dut.cg.load == p_load)
         addressed = self.reg(1, "addressed")      # an (address) byte has been written since the last START: reads/stops follow a write
         self.sync += If(issue, If(cmd[0], addressed.eq(0)), If(cmd[2], addressed.eq(1)), If(cmd[1], addressed.eq(0)))
-        legal = legal & (~(cmd[1] | cmd[2] | cmd[3]) | started_bus) & (~(cmd[1] | cmd[3]) | addressed)
+        # (a STOP command may come at any time the machine is idle - also on a free bus, as a driver's bus-clear does; it must then leave the bus alone)
+        legal = legal & (~(cmd[2] | cmd[3]) | started_bus) & (~cmd[3] | addressed)
         self.asm = Signal(name_override="asm_software")
         self.comb += self.asm.eq(legal)
         p_scl = self.reg(1, "p_scl", reset=1); p_sda = self.reg(1, "p_sda", reset=1)
@@ -537,6 +538,53 @@ def build_wd_step():
              K=2, mode="step", init_reset=m.mregs, funcs=FUNCS, cfg=dict(width=32), show=[m.dut._remaining.status, m.dut.execute], vcycles=20)
 
 
+class WdReset(Mon):
+    """Watchdog with the SoC reset output and the CPU-halt input, through its CSR bank, BMC from reset.  Reference for the reset path: the reset
+    request is up exactly while the watchdog is enabled (control.enable and not paused by a halted CPU), expired and in reset mode; the SoC reset
+    fires once that request has lasted reset_delay cycles and goes away one cycle after the request does (WaitTimer contract, C11/C19 step lemma)."""
+
+    def __init__(self, reset_delay):
+        from litex.soc.cores.watchdog import Watchdog
+        from litex.soc.interconnect import csr_bus
+        self.crg_rst = crg_rst = Signal(name_override="crg_rst")
+        self.halted = halted = Signal(name_override="cpu_halted")
+        self.submodules.dut = dut = Watchdog(width=4, crg_rst=crg_rst, reset_delay=reset_delay, halted=halted)
+        self.bus = bus = csr_bus.Interface(data_width=32, address_width=14)
+        self.submodules.bank = csr_bus.CSRBank(dut.get_csrs(), address=0, bus=bus)
+        self.free = [bus.adr, bus.we, bus.dat_w, halted]
+        f = dut._control.fields
+        en_ref = Signal(name_override="enabled_ref")
+        self.comb += en_ref.eq(f.enable & ~(halted & f.pause_halted))
+        req = Signal(name_override="reset_request_ref")
+        self.comb += req.eq(en_ref & dut.execute & f.reset)
+        cnt = self.reg(max(bits_for(reset_delay), 1), "rst_cnt", reset=reset_delay)
+        self.sync += If(req, If(cnt != 0, cnt.eq(cnt - 1))).Else(cnt.eq(reset_delay))
+        self.bad = Signal(name_override="bad_soc_reset")
+        self.comb += self.bad.eq(crg_rst != (cnt == 0))
+        # black-box corollary: no SoC reset while the watchdog has been disabled (or paused) for two cycles or more
+        off = self.reg(2, "off_cycles")
+        self.sync += If(en_ref, off.eq(0)).Elif(off != 3, off.eq(off + 1))
+        self.bad2 = Signal(name_override="bad_reset_while_disabled")
+        self.comb += self.bad2.eq(crg_rst & (off >= 2))
+        # the interrupt event is raised only while enabled
+        self.bad3 = Signal(name_override="bad_event_while_disabled")
+        self.comb += self.bad3.eq(dut.ev.wdt.trigger & (en_ref == 0))
+        self.w = Signal(name_override="w_reset_fired")
+        seen_dis = self.reg(1, "seen_disabled_after_expiry")
+        self.sync += If(dut.execute & (en_ref == 0), seen_dis.eq(1))
+        self.comb += self.w.eq(crg_rst)
+        self.w2 = Signal(name_override="w_disabled_while_expired")
+        self.comb += self.w2.eq(seen_dis & dut.execute & f.reset)
+        self.showl = [bus.adr, bus.we, bus.dat_w, halted, dut.enable, dut.execute, dut._remaining.status, crg_rst]
+
+
+def build_wd_reset(reset_delay, K):
+    m = WdReset(reset_delay)
+    return H("watchdog_reset_delay%d" % reset_delay, m, m.free, bad=dict(soc_reset_follows_enabled_expired_reset_mode=m.bad, no_soc_reset_while_disabled_or_paused=m.bad2,
+                                                                          no_event_while_disabled=m.bad3),
+             witness=dict(reset_fired=m.w, disabled_while_expired_in_reset_mode=m.w2), K=K, funcs=FUNCS, cfg=dict(reset_delay=reset_delay, width=4), show=m.showl, vcycles=30)
+
+
 class WtStep(Mon):
     def __init__(self, t):
         from litex.gen.genlib.misc import WaitTimer
@@ -653,7 +701,8 @@ def jobs(tier):
           Job("uart_core_fifos_events", _uart_core, dict(which="uart", K=22 if T else 16), cost=20), Job("uart_core_rxwe", _uart_core, dict(which="uart_rxwe", K=18 if T else 14), cost=20),
           Job("timeline_0_3_7", build_timeline, dict(times=[0, 3, 7], K=26)), Job("timeline_0_2_5", build_timeline, dict(times=[0, 2, 5], K=22)),
           Job("timeline_1_4", build_timeline, dict(times=[1, 4], K=20)), Job("timeline_2_6_9_12", build_timeline, dict(times=[2, 6, 9, 12], K=36)),
-          Job("timer_step", build_timer_step, {}), Job("timer_oneshot", build_timer_oneshot, dict(K=12)), Job("watchdog_step", build_wd_step, {}),
+          Job("timer_step", build_timer_step, {}), Job("timer_oneshot", build_timer_oneshot, dict(K=12)), Job("watchdog_step", build_wd_step, {}), Job("watchdog_reset_delay3", build_wd_reset, dict(reset_delay=3, K=20 if T else 16), cost=5),
+          Job("watchdog_reset_delay1", build_wd_reset, dict(reset_delay=1, K=14), cost=3),
           Job("waittimer_step_5", build_wt_step, dict(t=5)), Job("waittimer_step_1000", build_wt_step, dict(t=1000)), Job("pwm_step", build_pwm_step, {})]
     return js
 
